@@ -7,6 +7,7 @@ package zzmodel
 
 import (
 	"errors"
+	"io"
 	"strconv"
 
 	"github.com/openebs/jiva/types"
@@ -37,6 +38,7 @@ type Replica struct {
 	Applied     []Op // data-path operations applied
 	Failed      []Op // data-path operations answered with an error
 	Reads       int  // ReadAt invocations
+	ReadsOK     int  // ReadAt invocations answered completely, without error
 	Snapshots   []string
 	CallsAfterDetach int
 	Actions     []string // management actions received, in order
@@ -73,6 +75,7 @@ func Reset() {
 	ReadFromNonRW, UnlockedCall, CallAfterDetach = false, false, false
 	FailTag = ""
 	NoFaults = false
+	OnCall, RWCount, DataOpBelowQuorum = nil, nil, false
 }
 
 func New(addr string) *Replica {
@@ -85,7 +88,26 @@ func New(addr string) *Replica {
 // CheckReplicationFactor replaces util.CheckReplicationFactor (assumption A-env-RF).
 func CheckReplicationFactor() int { return EnvRF }
 
+// OnCall, when set, runs at the start of every call into a replica (the real calls are
+// network round trips, i.e. scheduling points: a harness lets other goroutines run there);
+// RWCount/DataOpBelowQuorum: a mutating data operation that reaches a replica while the
+// controller lists fewer than a quorum of RW replicas.
+var (
+	OnCall            func()
+	RWCount           func() int
+	DataOpBelowQuorum bool
+)
+
+func noteData() {
+	if RWCount != nil && RWCount() < EnvRF/2+1 {
+		DataOpBelowQuorum = true
+	}
+}
+
 func (m *Replica) noteCall(stateChanging bool) {
+	if OnCall != nil {
+		OnCall()
+	}
 	if m.Detached {
 		m.CallsAfterDetach++
 		CallAfterDetach = true
@@ -113,6 +135,7 @@ type IOs struct{ M *Replica }
 func (s *IOs) WriteAt(p []byte, off int64) (int, error) {
 	m := s.M
 	m.noteCall(true)
+	noteData()
 	id := OpSeq
 	if m.Dead {
 		m.Failed = append(m.Failed, Op{"W", id})
@@ -143,18 +166,26 @@ func (s *IOs) ReadAt(p []byte, off int64) (int, error) {
 		ReadFromNonRW = true
 	}
 	if m.fail("r.fail") {
+		// a failed read is an error without data, or a short read reported with io.EOF
+		// (what the rpc client returns for a TypeEOF reply: partial data, short count)
+		if !m.Dead && len(p) > 1 && zzNondetBool(FailTag+"r.short-eof."+m.Addr) {
+			p[0] = m.Addr[len(m.Addr)-6]
+			return len(p) / 2, io.EOF
+		}
 		return 0, ErrIO
 	}
 	// tag the buffer with the identity of the replica that served it
 	if len(p) > 0 {
 		p[0] = m.Addr[len(m.Addr)-6] // the digit in "tcp://hN:9502"
 	}
+	m.ReadsOK++
 	return len(p), nil
 }
 
 func (s *IOs) Sync() (int, error) {
 	m := s.M
 	m.noteCall(true)
+	noteData()
 	id := OpSeq
 	if m.fail("s.fail") {
 		m.Failed = append(m.Failed, Op{"S", id})
@@ -167,6 +198,7 @@ func (s *IOs) Sync() (int, error) {
 func (s *IOs) Unmap(off int64, length int64) (int, error) {
 	m := s.M
 	m.noteCall(true)
+	noteData()
 	id := OpSeq
 	if m.fail("u.fail") {
 		m.Failed = append(m.Failed, Op{"U", id})
